@@ -74,7 +74,7 @@ def replay_chunk(ctx, texts):
             continue                       # only maximal histories: every shorter one is a prefix of one
         cfg = s["cfg"]
         hist = list(s["hist"])
-        fails, n = replay_env.run_case(cfg, hist, ctx["trade"], seed=len(cfg["events"]))
+        fails, n = replay_env.run_case(cfg, hist, ctx["trade"], seed=len(cfg["events"]), owned=ctx.get("owned"))
         out["n"] += 1
         out["ops"] += n
         k = "%s/lat%s/%s" % (_mode(cfg), cfg["lat"], "".join(r["call"][0] for r in hist))
@@ -84,7 +84,8 @@ def replay_chunk(ctx, texts):
                              "mode": _mode(cfg), "fold": [cfg["fstart"], cfg["fend"]],
                              "calls": [(r["call"], r["out"], [(x["kind"], x["id"], x["t"]) for x in r["log"]]) for r in hist]}
         for (i, clause, detail) in fails:
-            if len(out["fails"]) < 40:
+            own = ctx.get("owned") is None or clause in ctx["owned"]
+            if (own and sum(1 for f in out["fails"] if f["clause"] == clause) < 15) or (not own and len(out["fails"]) < 10):
                 rec = hist[i]
                 key = "%s/%s/%s/lat%s" % (clause, rec["call"], _mode(cfg), "0" if cfg["lat"] == 0 else "N")
                 if cfg["space"] != "box":
@@ -98,5 +99,7 @@ def replay_chunk(ctx, texts):
 
 def run_models(rep, models, clauses):
     for m in models:
+        ctx = dict(m["ctx"])
+        ctx["owned"] = set(clauses)
         explore.explore_and_replay(rep, m["name"], m["module"], m["cfg"], ("harness.env_check", "replay_chunk"),
-                                   m["ctx"], clauses, m["invariants"], m["properties"], chunk=200)
+                                   ctx, clauses, m["invariants"], m["properties"], chunk=200)
